@@ -239,4 +239,18 @@ PROPS = {
             "known findings C09-F1..F3: three shapes of records (decidable predicate known_class in the harness) whose printed form does not read back; failures on values in those classes are counted as known-finding reproductions, any other failure is a violation",
         ],
     ),
+    "C15": dict(
+        coq_targets=["Props/C15.vo"],
+        harness=[dict(pkg="h_recon", bin="c15", cases={"quick": 400, "thorough": 5000},
+                      checkers=["corr"], timeout=2400)],
+        allowed_axioms=[],
+        trusted_base=[
+            "for a single text-like token compare_recon_values compares one TextValue / BooleanValue event carrying the un-escaped content (model: key_token); tied to the code by correspondence on generated spellings (bare, quoted, \\u-escaped, padded, damaged)",
+            "for arbitrary Recon the comparator, the hasher and the parser are NOT modelled: an oracle runs only the real code and compares compare_recon_values / recon_hash with the equality of the parsed values (swimos_model::Value ==, the subject of C19)",
+        ],
+        assumptions=[
+            "theorems cover text keys (printed forms compare as the texts, bare and quoted spellings agree); records, numbers, blobs and attribute bodies are oracle-checked only (partial)",
+            "the one-shot parser ignores input after a complete top-level value (`1 2` parses as 1); the oracle takes the parser's verdict as the meaning of `valid Recon`",
+        ],
+    ),
 }
